@@ -225,14 +225,18 @@ func init() {
 		trusted: []string{"TLC", "Dcg.tla as transcription of DTR 13211-3", "Engine.tla"},
 		run: func(c *checkCtx) {
 			r := c.mcHolds("GenDcg", "GenDcg_"+c.tier+".cfg", tlcOpts{})
-			cases, results := c.replay("dcg", r.cases, replayOpts{})
-			c.judge("dcg", cases, results, func(cs, res map[string]J) string {
-				if evs, _ := cs["events"].([]J); len(evs) > 1 {
-					in, _ := res["input"].(string)
-					return in
-				}
-				return ""
-			})
+			// the terminals x, y as ASCII letters, and as a two-byte and a three-byte character (with every terminal list of the
+			// expand_term path written as a string)
+			for _, o := range []map[string]string{nil, {"alphabet": "unicode"}} {
+				cases, results := c.replay("dcg", r.cases, replayOpts{opts: o})
+				c.judge("dcg", cases, results, func(cs, res map[string]J) string {
+					if evs, _ := cs["events"].([]J); len(evs) > 1 {
+						in, _ := res["input"].(string)
+						return in + fmt.Sprint(o)
+					}
+					return ""
+				})
+			}
 			c.exhaustive = true
 		},
 	}
